@@ -337,6 +337,7 @@ def check_property(prop, tier):
             "dropped_by_extraction": meta.get("dropped", []),
             "not_under_contract": meta.get("not_under_contract", {}).get(prop, []),
             "assumed_contracts": assumed,
+            "imported_contracts_proved_in_home_unit": sorted({"%s::%s (home unit %s)" % (u, i["qual"], i["home"]) for u in units if results[u].gen is not None for i in results[u].gen.imports}),
             "known_findings_matched": [k.get("id") for k, _, _ in known_hits],
             "undecided": undecided,
             "cache_hits": [u for u in closure if results[u].cached],
